@@ -1,4 +1,5 @@
 import TeleportModel.Model.EvmProof
+import TeleportModel.Model.EvmProofLife
 /-
 C08 — EVM storage proofs bind contract, slot, value, root and height.
 
@@ -702,5 +703,75 @@ example : verify toyEnv2 toyCs toyStore ⟨0, 100⟩
     .commitment [] [] 0 toyValue = .err "storage-proof" := by decide
 
 end Example
+
+/-! ## life cycle: the configured delay is the delay in force -/
+
+namespace Life
+
+/-- the configuration of a stored client: everything but the latest header -/
+structure Conf where
+  kind : ClientKind
+  contract : Bytes
+  blockDelay : UInt64
+  nValidators : Nat
+  chainId : UInt64
+  trusting : UInt64
+  timeDelay : UInt64
+  deriving DecidableEq
+
+def confOf (l : Life) : Conf :=
+  { kind := l.cs.kind, contract := l.cs.contract, blockDelay := l.cs.blockDelay, nValidators := l.cs.nValidators,
+    chainId := l.chainId, trusting := l.trusting, timeDelay := l.timeDelay }
+
+/-- **update_preserves_configuration.** A header update changes the head (and the stored header) and adds a consensus
+    state; every other field of the stored client state — contract, chain id, trusting period, TimeDelay, BlockDelay — is
+    unchanged. -/
+theorem update_preserves_configuration (l : Life) (h : Height) (hash root : Bytes) (time : UInt64) :
+    confOf (update l h hash root time) = confOf l := rfl
+
+theorem applyUpd_preserves_configuration (l : Life) (u : Upd) : confOf (applyUpd l u) = confOf l := by
+  unfold applyUpd; split
+  · exact update_preserves_configuration ..
+  · rfl
+
+/-- … after any number of accepted or rejected updates -/
+theorem updates_preserve_configuration (l : Life) (us : List Upd) : confOf (applyUpds l us) = confOf l := by
+  induction us generalizing l with
+  | nil => rfl
+  | cons u us ih => simp only [applyUpds, List.foldl_cons] at *; rw [ih, applyUpd_preserves_configuration]
+
+theorem delayBlock_of_conf {l l' : Life} (h : confOf l' = confOf l) : l'.cs.delayBlock = l.cs.delayBlock := by
+  have hk : l'.cs.kind = l.cs.kind := congrArg Conf.kind h
+  have hb : l'.cs.blockDelay = l.cs.blockDelay := congrArg Conf.blockDelay h
+  have hn : l'.cs.nValidators = l.cs.nValidators := congrArg Conf.nValidators h
+  unfold ClientState.delayBlock; rw [hk, hb, hn]
+
+/-- **configured_delay_in_force.** Create (or upgrade, toggle) with configuration `c`, apply any header updates, verify on
+    the stored state: acceptance implies `proof block + c.blockDelay ≤ head block` with the BlockDelay of the
+    proposal, for every TimeDelay, and the contract checked is the configured one. -/
+theorem configured_delay_in_force (env : Env) (c : Config) (old : ConsStore) (us : List Upd) (h : Height) (proof : ProofArg)
+    (k : PathKind) (src dst : Bytes) (seq : UInt64) (value : Bytes)
+    (hacc : verifyStored env (applyUpds (fromConfig c old) us) h proof k src dst seq value = .ok ()) :
+    h.rh.toNat + c.blockDelay.toNat ≤ (applyUpds (fromConfig c old) us).cs.head.rh.toNat
+    ∧ (applyUpds (fromConfig c old) us).cs.contract = c.contract := by
+  have hc := updates_preserve_configuration (fromConfig c old) us
+  have hd := delayBlock_of_conf hc
+  have hg := (delay_gate hacc).2
+  rw [hd] at hg
+  refine ⟨by simpa [fromConfig, ClientState.delayBlock] using hg, ?_⟩
+  exact congrArg Conf.contract hc
+
+/-- non-vacuity: a configuration with TimeDelay ≠ BlockDelay keeps both through two accepted updates and a rejected one -/
+def toyConfig : Config :=
+  { contract := [1], chainId := 4, trusting := 9, timeDelay := 0, blockDelay := 3,
+    head := ⟨0, 10⟩, headHash := [7], cons := ⟨1, ⟨0, 10⟩, [2]⟩ }
+
+def toyUpds : List Upd := [⟨true, ⟨0, 11⟩, [8], [3], 2⟩, ⟨false, ⟨0, 12⟩, [9], [4], 3⟩, ⟨true, ⟨0, 12⟩, [9], [4], 3⟩]
+
+example : (confOf (applyUpds (create toyConfig) toyUpds)).blockDelay = 3
+    ∧ (confOf (applyUpds (create toyConfig) toyUpds)).timeDelay = 0
+    ∧ (applyUpds (create toyConfig) toyUpds).cs.head = ⟨0, 12⟩ := by decide
+
+end Life
 
 end TM.EvmProof
